@@ -138,6 +138,7 @@ let () =
           | 'X' -> run_x n rest
           | 'Z' -> run_z n rest
           | 'M' -> run_m toks
+          | 'P' -> print_string "R clean\nS clean\n"   (* pools are outside the model: observation-only oracle *)
           | _ -> print_string "R BADCASE\nS BADCASE\n"));
       flush stdout
     done
